@@ -7,7 +7,7 @@
 From Coq Require Import ZArith List Bool String Ascii Arith Lia.
 From Coq Require Import PrimFloat.
 From OV Require Import Model.Num Model.Fmt Model.PyString Model.Pressure Model.Report Model.ReportPy.
-From OV Require Import Proofs.Fmt Proofs.Report Proofs.ReportThm Proofs.ReportPy Gen.ReportGen.
+From OV Require Import Proofs.Fmt Proofs.FmtLen Proofs.Report Proofs.ReportThm Proofs.ReportPy Gen.ReportGen.
 Import ListNotations.
 Open Scope string_scope.
 
@@ -281,6 +281,12 @@ Theorem C13gen_port_pressure_is_model : forall ports repr vs pn used seps,
 Proof. exact g_get_port_pressure_list. Qed.
 Print Assumptions C13gen_port_pressure_is_model.
 
+(* (T6') the minimum-width field of '{:W.Pf}' with W = len(str(float(v)).split(".")[0]) never pads: rounding cannot lose an
+         integer digit, so a shown cell is printed as exactly fmt_fixed (Props/C13.v fmt_fixed_reads_back applies to its characters) *)
+Theorem C13gen_min_width_never_pads : forall d v, py_fmt_f (Z.of_nat (left_len v)) (Z.of_nat d) v = fmt_fixed d v.
+Proof. intros d v. unfold py_fmt_f. rewrite Nat2Z.id. apply py_rjust_short. rewrite Nat2Z.id. apply left_len_le_fmt_fixed. Qed.
+Print Assumptions C13gen_min_width_never_pads.
+
 (* (T7) combined_view prints the model's report: one row per kernel line with the model's cells, CP/LCD cells and flag symbols,
         then the model's summary row (CP total: str(sum) of the CP latencies, LCD total: repr of the model's lcd_sum) or, exactly
         when the model suppresses it, the missing-data warning with the model's count *)
@@ -329,6 +335,22 @@ Proof.
   - rewrite C3. subst a. cbn [analysis_of a_lcd]. apply map_length.
 Qed.
 Print Assumptions C13gen_lcd_list_is_model.
+
+(* (T10) the warning decisions of osaca.py:inspect (translated slice; the wiring of the two frontend calls is checked by the
+         translator) are Model/Report.v's print_arch_warning / print_length_warning *)
+Theorem C13gen_inspect_warning_decisions : forall q (lines : option string) klen,
+  q_arch q <> Some ""%string -> py_optstr_truth lines = q_lines_given q ->
+  g_print_arch_warning (q_arch q) = Ok (print_arch_warning q)
+  /\ g_print_length_warning lines (Z.of_nat klen) (Z.of_nat (q_parsed q)) = Ok (print_length_warning q klen).
+Proof.
+  intros q lines klen HA HL. split.
+  - unfold g_print_arch_warning, print_arch_warning. destruct (q_arch q) as [[|c s]|]; [congruence|reflexivity|reflexivity].
+  - unfold g_print_length_warning, print_length_warning. rewrite HL. destruct (q_lines_given q); [reflexivity|]. f_equal.
+    destruct (Nat.eqb_spec klen (q_parsed q)) as [E|E], (Nat.ltb_spec 100 klen) as [L|L];
+      destruct (Z.eqb_spec (Z.of_nat klen) (Z.of_nat (q_parsed q))) as [E'|E'], (Z.ltb_spec 100 (Z.of_nat klen)) as [L'|L'];
+      try reflexivity; try lia.
+Qed.
+Print Assumptions C13gen_inspect_warning_decisions.
 
 (* ------------------------------------------------------------------ the C13 theorems for what the CODE returns *)
 Section Code.
